@@ -111,7 +111,7 @@ func (e *Enc) dispatch(fr *Frame, st *State, ci calleeInfo, cc *ssa.CallCommon, 
 		return m(e, fr, st, args, argTypes, pos)
 	}
 	// 2. contract
-	if spec, ok := e.P.Specs[ci.name]; ok && (len(spec.Ensures) > 0 || len(spec.Requires) > 0 || len(spec.Modifies) > 0 || spec.Kind != "" || spec.Trusted) && !(ci.fn == e.Top && len(e.stack) == 0) {
+	if spec, ok := e.P.Specs[ci.name]; ok && (len(spec.Ensures) > 0 || len(spec.Requires) > 0 || len(spec.Invariants) > 0 || len(spec.Modifies) > 0 || spec.Kind != "" || spec.Trusted) && !(ci.fn == e.Top && len(e.stack) == 0) {
 		if ci.fn == nil || len(ci.fn.Blocks) == 0 || spec.Trusted || spec.Verify || spec.NoInline {
 			e.UsedSpecs[ci.name] = true
 			return e.applySpec(fr, st, spec, ci, args, argTypes, pos)
@@ -252,9 +252,24 @@ func (e *Enc) applySpec(fr *Frame, st *State, spec *FuncSpec, ci calleeInfo, arg
 			}
 		}
 	}
+	// $top0: the receiver / first parameter of the function under verification. Contracts of external functions
+	// that can re-enter the EVM (join points) use it to name the state they must preserve (they have no EVM argument).
+	bindTop := func(env *Env) {
+		if fr == nil {
+			return
+		}
+		top := topFrame(fr)
+		if len(top.Fn.Params) > 0 && len(top.Args) > 0 && top.Args[0].T != nil {
+			env.vars["$top0"] = &SVal{T: top.Args[0].T, Typ: top.Fn.Params[0].Type()}
+		}
+	}
 	envPre := e.specEnv(nil, spec, st, nil, st.Alloc, pkg)
 	bindArgs(envPre)
+	bindTop(envPre)
 	for _, r := range spec.Requires {
+		if !e.active(r.Props) {
+			continue
+		}
 		t, err := envPre.EvalBool(r.Expr)
 		if err != nil {
 			unsupported("precondition %s of %s: %v", r.Label, spec.Name, err)
@@ -330,6 +345,7 @@ func (e *Enc) applySpec(fr *Frame, st *State, spec *FuncSpec, ci calleeInfo, arg
 	}
 	envPost := e.specEnv(nil, spec, st, pre, pre.Alloc, pkg)
 	bindArgs(envPost)
+	bindTop(envPost)
 	rn := resultNames(spec, ci.sig)
 	for i, n := range rn {
 		if i < len(results) {
@@ -340,7 +356,18 @@ func (e *Enc) applySpec(fr *Frame, st *State, spec *FuncSpec, ci calleeInfo, arg
 			}
 		}
 	}
-	for _, en := range spec.Ensures {
+	post := append([]*Clause{}, spec.Ensures...)
+	// data-structure invariants of the callee are only interesting to other operations of the same data structure
+	// (functions that carry invariants themselves); elsewhere they would only clutter every query
+	if fr != nil {
+		if ts := topFrame(fr).spec; ts != nil && len(ts.Invariants) > 0 {
+			post = append(append([]*Clause{}, spec.Invariants...), post...)
+		}
+	}
+	for _, en := range post {
+		if !e.active(en.Props) {
+			continue
+		}
 		t, err := envPost.EvalBool(en.Expr)
 		if err != nil {
 			unsupported("postcondition %s of %s at call site: %v", en.Label, spec.Name, err)
@@ -499,7 +526,7 @@ func (e *Enc) assertCalls(fr *Frame, st *State, ci calleeInfo, args []*Val, argT
 		return
 	}
 	for _, ac := range top.spec.AssertCalls {
-		if !matchCallee(ac.Callee, ci.name) {
+		if !matchCallee(ac.Callee, ci.name) || !e.active(ac.Props) {
 			continue
 		}
 		env := e.hookEnv(fr, st, nil, ci, args, argTypes, nil)
